@@ -148,6 +148,12 @@ def get_all_rules(rules_path=None, match_mode='first_match'):
     """
     global _cached_engine, _cached_engine_path
 
+    # The cached engine belongs to the previous load. Drop it first so that a CSV
+    # rule file (or a .rules file that fails to load) is never classified with the
+    # engine of whatever .rules file was loaded before it in this process.
+    _cached_engine = None
+    _cached_engine_path = None
+
     user_rules_with_source = []
     if rules_path:
         # Check if it's the new .rules format
